@@ -192,6 +192,10 @@ def c02(ck):
         ck.tlc_ok(r, "GenC02")
         cases = dedupe_by_src(r.cases, "danger")
         total_danger += sum(1 for c in cases if c.get("danger"))
+        if ml >= 3:
+            # length-3 histories: every history, on a third of the seed construction paths each
+            for i, c in enumerate(cases):
+                c["seeds"] = c["seeds"][i % 3::3]
         ck.replay(cases)
         ck.extra.setdefault("bounds", {})[fam] = consts
     ck.extra["model_dangerous_histories"] = total_danger
